@@ -117,7 +117,7 @@ def conversion_factor_rule(s: str) -> bool:
     pre: _scell(s, _NUM_CLASSES)
     pre: R.ascii_printable(s)
     pre: _digits_limited(s, "019")
-    pre: not _kf_cf_nan(s)  # TEMP-HARDWIRED
+    pre: not R.known("C14-conversion-factor-nan", _kf_cf_nan(s))
     post: _
     """
     s = _solid(s)
@@ -265,7 +265,6 @@ def deprecated_from_rule(d: str, r1: str, r2: str, hv: str, ov: str, in_lib: boo
     pre: 1 <= len(d) <= R.N(5)
     pre: _is_ver(r1, R.M(1)) and _is_ver(r2) and _is_ver(hv, R.M(1)) and _is_ver(ov)
     pre: _dep_cell(d, r1, r2, hv)
-    pre: in_lib or R.env_int("VP_CFG", 0) != 1
     pre: not in_lib or R.env_int("VP_CFG", 0) != 0
     post: _
     """
@@ -397,7 +396,7 @@ def hed_id_rule(body: str, lib: bool, prev: int, old: str, has_range: bool, lo: 
     pre: 1 <= len(old) <= R.M(1)
     pre: R.over(old, "0123456789")
     pre: 0 <= lo <= hi <= 10 ** (R.N(2) + 1)
-    pre: not _kf_old_zero(prev, old)  # TEMP-HARDWIRED
+    pre: not R.known("C14-hedid-previous-zero", _kf_old_zero(prev, old))
     post: _
     """
     body, old = _solid(body), _solid(old)
@@ -425,6 +424,11 @@ def hed_id_rule(body: str, lib: bool, prev: int, old: str, has_range: bool, lo: 
     if lib:
         e.attributes[HedKey.InLibrary] = "lib"
     issues = v.verify_tag_id(None, e, HedKey.HedID)
+    # the previous schema is asked for this element, in this element's section, and only the home library's is asked
+    if v._previous_schemas[other].asked:
+        return False
+    if prev >= 1 and v._previous_schemas[home].asked != [("x", HedSectionKey.Tags)]:
+        return False
     expected = ref.hed_id_expect(body, ref.id_value(old) if prev == 3 else None, (lo, hi) if has_range else None)
     return _agree(issues, expected)
 
@@ -643,9 +647,9 @@ HARNESSES = [
                      env={"VP_N": 4}, timeout=200,
                      bound="every Unicode term of 1..4 characters; entry allowedCharacter absent / 'blank' / "
                            "'colon,slash'"),
-        thorough=R.tier(cells=_cells(6, _CHAR_CLASSES, 4, split1_from=6, minlen=1,
+        thorough=R.tier(cells=_cells(5, _CHAR_CLASSES, 4, split1_from=5, minlen=1,
                                      extra=R.int_cells("VP_EXTRA", 0, 2)),
-                        env={"VP_N": 6}, timeout=900, bound="as quick with terms of 1..6 characters"),
+                        env={"VP_N": 5}, timeout=900, bound="as quick with terms of 1..5 characters"),
         what="one SCHEMA_CHARACTER_INVALID per character outside letters, digits, '-', '.', '_', the entry's own "
              "allowedCharacter groups and non-ASCII; nothing else",
         oracle="models/compliance_ref.py term_problem_positions (code points > 127 other than U+00A1..U+017F undecided)",
@@ -654,8 +658,8 @@ HARNESSES = [
                                         "hed.schema.schema_validation_util.get_problem_indexes"],
         quick=R.tier(cells=_cells(4, _CHAR_CLASSES, 3), env={"VP_N": 4}, timeout=200,
                      bound="every Unicode description of <= 4 characters"),
-        thorough=R.tier(cells=_cells(6, _CHAR_CLASSES, 4, split1_from=6), env={"VP_N": 6}, timeout=900,
-                        bound="every Unicode description of <= 6 characters"),
+        thorough=R.tier(cells=_cells(5, _CHAR_CLASSES, 4, split1_from=5), env={"VP_N": 5}, timeout=900,
+                        bound="every Unicode description of <= 5 characters"),
         what="one SCHEMA_CHARACTER_INVALID per ASCII character that is not printable or is one of [ ] { }; commas and "
              "non-ASCII text are accepted",
         oracle="models/compliance_ref.py description_problem_positions", stubs=[_STUB_ENTRY, _CHSET],
@@ -664,8 +668,8 @@ HARNESSES = [
         quick=R.tier(cells=_cells(3, _CHAR_CLASSES, 2), env={"VP_N": 3, "VP_M": 2}, timeout=200,
                      bound="every Unicode text of <= 3 characters x every character set of <= 2 symbolic characters "
                            "(+ optional 'nonascii') x index adjustment -3..3"),
-        thorough=R.tier(cells=_cells(5, _CHAR_CLASSES, 3, split1_from=4, split2_from=5), env={"VP_N": 5, "VP_M": 2},
-                        timeout=900, bound="text <= 5, character set <= 2"),
+        thorough=R.tier(cells=_cells(4, _CHAR_CLASSES, 3, split1_from=4), env={"VP_N": 4, "VP_M": 2},
+                        timeout=900, bound="text <= 4, character set <= 2"),
         what="returns exactly the (character, index + adjustment) pairs, in order, of characters not in the set "
              "(code points > 127 exempt when the set contains 'nonascii'); an empty set restricts nothing",
         oracle="inline list comprehension from the docstring", stubs=[_CHSET], outside="longer texts"),
